@@ -65,7 +65,10 @@ pub fn cases(tier: Tier) -> Vec<Case> {
 fn seeds(content: Content) -> (Vec<Passkey>, Option<Vec<Vec<u8>>>) {
     let own = seeded(&Seed { n: 1, rp: RP.into(), handle: Some(vec![1, 2, 3]), counter: Some(5), hmac: Some(true) });
     let other = seeded(&Seed { n: 2, rp: "other.org".into(), handle: Some(vec![1, 2, 3]), counter: Some(5), hmac: None });
+    let own2 = seeded(&Seed { n: 3, rp: RP.into(), handle: Some(vec![4, 5]), counter: Some(9), hmac: Some(false) });
     match content {
+        Content::TwoViaList => (vec![own.clone(), other.clone(), own2], Some(vec![cred_id(1), cred_id(3)])),
+        Content::TwoNoList => (vec![own.clone(), other.clone(), own2], None),
         Content::NoMatch => (vec![], None),
         Content::MatchViaList => (vec![other, own], Some(vec![cred_id(1)])),
         Content::MatchNoList => (vec![other, own], None),
